@@ -83,138 +83,154 @@ def codeName (code : Nat) : String := ((VC2.Gen.parseCodeNames.find? (·.1 == co
 def isPicture (code : Nat) : Bool := VC2.Gen.is_picture { parse_code := code }
 def isFragment (code : Nat) : Bool := VC2.Gen.is_fragment { parse_code := code }
 
-abbrev M := Except Verdict
+/-- what the validator can raise -/
+inductive Err
+  | reject (cls : String)      -- a ConformanceError subclass
+  | crash (what : String)      -- KeyError / UnboundLocalError / AssertionError / …
+  deriving Repr, DecidableEq, Inhabited
+
+def Err.toVerdict : Err → Verdict
+  | .reject c => .reject c
+  | .crash w => .crash w
+
+abbrev M := Except Err
 
 def rej {α : Type} (cls : String) : M α := .error (.reject cls)
 def crash {α : Type} (what : String) : M α := .error (.crash what)
 
+/-- raise the conformance error `cls` when `c` holds -/
+def guardRej (c : Bool) (cls : String) : M Unit := if c then rej cls else pure ()
+
+/-- read a `State` key: `none` = KeyError (or an unbound local) -/
+def getOrCrash {α : Type} (x : Option α) (what : String) : M α :=
+  match x with
+  | some v => pure v
+  | none => crash what
+
+/-- `assert_parse_code_in_sequence` -/
+def matchOrRej (m : Matcher) (name : String) (cls : String) : M Matcher :=
+  match m.matchSymbol name with
+  | some g => pure g
+  | none => rej cls
+
+def profileAllows (p : Nat) (code : Nat) : Bool :=
+  (((VC2.Gen.profileAllowedCodes.find? (·.1 == p)).map (·.2)).getD []).contains code
+
+/-- the check of the previous unit's next_parse_offset at the top of `parse_info` -/
+def checkLastNext (s : VState) : M Unit :=
+  match s.nextOff with
+  | some n =>
+    if n = 0 then pure ()
+    else do
+      let last ← getOrCrash s.lastPI "TypeError"
+      guardRej (decide (n ≠ s.pos - last)) "InconsistentNextParseOffset"
+  | none => pure ()
+
+def levelStep (lvl : Option Matcher) (name : String) : M (Option Matcher) :=
+  match lvl with
+  | some lm => do let l ← matchOrRej lm name "LevelInvalidSequence"; pure (some l)
+  | none => pure none
+
 /-- `parse_info` (10.5.1) with all of its "not in spec" checks, in order -/
 def parseInfo (s : VState) (u : DUnit) : M VState := do
-  let this := s.pos
-  -- consistency of the previous unit's next_parse_offset
-  match s.nextOff with
-    | some n =>
-      if n ≠ 0 then
-        match s.lastPI with
-        | none => crash "TypeError"
-        | some last => if n ≠ this - last then rej "InconsistentNextParseOffset"
-    | none => pure ()
+  checkLastNext s
   -- (prefix and parse-code-in-enum checks: the unit is individually valid)
-  let generic ← match s.generic.matchSymbol (codeName u.code) with
-    | some g => pure g
-    | none => rej "GenericInvalidSequence"
-  let level ← match s.level with
-    | some lm => match lm.matchSymbol (codeName u.code) with
-      | some l => pure (some l)
-      | none => rej "LevelInvalidSequence"
-    | none => pure none
-  match s.profile with
-  | some p =>
-    if !(((VC2.Gen.profileAllowedCodes.find? (·.1 == p)).map (·.2)).getD []).contains u.code then
-      rej "ParseCodeNotAllowedInProfile"
-  | none => pure ()
+  let generic ← matchOrRej s.generic (codeName u.code) "GenericInvalidSequence"
+  let level ← levelStep s.level (codeName u.code)
+  guardRej (match s.profile with | some p => !profileAllows p u.code | none => false)
+    "ParseCodeNotAllowedInProfile"
   let minReq := VC2.Gen.parse_code_version_implication u.code
   let mv : Int := (s.majorVersion.map (fun (v : Nat) => (v : Int))).getD VC2.Gen.MINIMUM_MAJOR_VERSION
-  if mv < minReq then rej "ParseCodeNotSupportedByVersion"
+  guardRej (decide (mv < minReq)) "ParseCodeNotSupportedByVersion"
   let expected := pymax (s.expectedVersion.getD VC2.Gen.MINIMUM_MAJOR_VERSION) minReq
-  if u.code = 0x10 then
-    if u.next ≠ 0 then rej "NonZeroNextParseOffsetAtEndOfSequence"
-  else if !(isPicture u.code || isFragment u.code) then
-    if u.next = 0 then rej "MissingNextParseOffset"
-  if 1 ≤ u.next ∧ u.next < 13 then rej "InvalidNextParseOffset"
-  match s.lastPI with
-  | none => if u.prev ≠ 0 then rej "NonZeroPreviousParseOffsetAtStartOfSequence"
-  | some last =>
-    if u.prev ≠ this - last then rej "InconsistentPreviousParseOffset"
+  guardRej (u.code == 0x10 && u.next != 0) "NonZeroNextParseOffsetAtEndOfSequence"
+  guardRej (u.code != 0x10 && !(isPicture u.code || isFragment u.code) && u.next == 0) "MissingNextParseOffset"
+  guardRej (decide (1 ≤ u.next ∧ u.next < 13)) "InvalidNextParseOffset"
+  guardRej (match s.lastPI with | none => u.prev != 0 | some _ => false)
+    "NonZeroPreviousParseOffsetAtStartOfSequence"
+  guardRej (match s.lastPI with | none => false | some last => u.prev != s.pos - last)
+    "InconsistentPreviousParseOffset"
   pure { s with generic := generic, level := level, expectedVersion := some expected,
-                nextOff := some u.next, lastPI := some this }
+                nextOff := some u.next, lastPI := some s.pos }
 
 /-- `assert_picture_number_incremented_as_expected` -/
 def pictureNumberCheck (s : VState) (n : Nat) : M VState := do
-  match s.lastPicNum with
-  | some last => if n ≠ (last + 1) % 4294967296 then rej "NonConsecutivePictureNumbers"
-  | none => pure ()
-  match s.pcm with
-  | none => crash "KeyError:picture_coding_mode"
-  | some pcm =>
-    if pcm = 1 ∧ s.numPics % 2 = 0 ∧ n % 2 ≠ 0 then rej "EarliestFieldHasOddPictureNumber"
-    pure { s with lastPicNum := some n, numPics := s.numPics + 1 }
+  guardRej (match s.lastPicNum with | some last => n != (last + 1) % 4294967296 | none => false)
+    "NonConsecutivePictureNumbers"
+  let pcm ← getOrCrash s.pcm "KeyError:picture_coding_mode"
+  guardRej (pcm == 1 && s.numPics % 2 == 0 && n % 2 != 0) "EarliestFieldHasOddPictureNumber"
+  pure { s with lastPicNum := some n, numPics := s.numPics + 1 }
+
+/-- `if "_level_sequence_matcher" not in state:` create it and feed it the sequence header -/
+def levelInit (cfg : Config) (lvl : Option Matcher) : M Matcher :=
+  match lvl with
+  | some lm => pure lm
+  | none => getOrCrash ((Matcher.init false cfg.levelPattern).matchSymbol "sequence_header") "AssertionError"
+
+/-- `parse_parameters` and the byte-for-byte comparison at the end of `sequence_header` -/
+def headerPayload (cfg : Config) (s : VState) (u : DUnit) : M VState := do
+  let minReq := VC2.Gen.profile_version_implication u.profile
+  guardRej (decide ((u.majorVersion : Int) < minReq)) "ProfileNotSupportedByVersion"
+  let expected := pymax (s.expectedVersion.getD VC2.Gen.MINIMUM_MAJOR_VERSION) minReq
+  let level ← levelInit cfg s.level
+  guardRej (match s.lastHdr with | some h => h != u.hdrId | none => false) "SequenceHeaderChangedMidSequence"
+  pure { s with majorVersion := some u.majorVersion, profile := some u.profile,
+                expectedVersion := some expected, level := some level, pcm := some cfg.pcm,
+                lastHdr := some u.hdrId }
+
+/-- `fragment_header` + `fragment_data` for a fragment that carries slices -/
+def dataFragment (s : VState) (u : DUnit) : M VState := do
+  -- no fragmented picture in progress: every slice is one too many (uses `.get` fallbacks)
+  guardRej (s.fragRemaining == 0) "TooManySlicesInFragmentedPicture"
+  let last ← getOrCrash s.lastPicNum "KeyError:_last_picture_number"
+  guardRej (last != u.picNum) "PictureNumberChangedMidFragmentedPicture"
+  if u.sliceCount > s.fragRemaining then do
+    let _ ← getOrCrash s.initFragOffset "KeyError:_picture_initial_fragment_offset"
+    let _ ← getOrCrash s.fragReceived "KeyError:fragment_slices_received"
+    rej "TooManySlicesInFragmentedPicture"
+  else do
+    let received ← getOrCrash s.fragReceived "KeyError:fragment_slices_received"
+    let sx ← getOrCrash s.slicesX "KeyError:slices_x"
+    if sx = 0 then crash "ZeroDivisionError"
+    else if u.fx != received % sx || u.fy != received / sx then do
+      let _ ← getOrCrash s.initFragOffset "KeyError:_picture_initial_fragment_offset"
+      rej "FragmentSlicesNotContiguous"
+    else
+      let received' := received + u.sliceCount
+      let done := decide (received' = sx * (s.slicesY.getD 0))
+      pure { s with fragReceived := some received', fragRemaining := s.fragRemaining - u.sliceCount,
+                    decoded := if done then s.decoded ++ [u.picNum] else s.decoded }
 
 /-- the payload of one data unit (after its parse_info) -/
 def payload (cfg : Config) (s : VState) (u : DUnit) : M VState :=
   match u.kind with
-  | .seqHdr => do
-    -- parse_parameters
-    let minReq := VC2.Gen.profile_version_implication u.profile
-    if (u.majorVersion : Int) < minReq then rej "ProfileNotSupportedByVersion"
-    let expected := pymax (s.expectedVersion.getD VC2.Gen.MINIMUM_MAJOR_VERSION) minReq
-    let level ← match s.level with
-      | some lm => pure (some lm)
-      | none =>
-        match (Matcher.init false cfg.levelPattern).matchSymbol "sequence_header" with
-        | some lm => pure (some lm)
-        | none => crash "AssertionError"
-    -- … remaining header fields are valid; then the byte-for-byte comparison
-    match s.lastHdr with
-    | some h => if h ≠ u.hdrId then rej "SequenceHeaderChangedMidSequence"
-    | none => pure ()
-    pure { s with majorVersion := some u.majorVersion, profile := some u.profile,
-                  expectedVersion := some expected, level := level, pcm := some cfg.pcm,
-                  lastHdr := some u.hdrId }
+  | .seqHdr => headerPayload cfg s u
   | .picture => do
-    if s.fragRemaining ≠ 0 then rej "PictureInterleavedWithFragmentedPicture"
+    guardRej (s.fragRemaining != 0) "PictureInterleavedWithFragmentedPicture"
     let s ← pictureNumberCheck s u.picNum
     pure { s with slicesX := some cfg.slicesX, slicesY := some cfg.slicesY,
                   decoded := s.decoded ++ [u.picNum] }
-  | .fragment => do
-    if u.sliceCount = 0 then
-      if s.fragRemaining ≠ 0 then rej "FragmentedPictureRestarted"
+  | .fragment =>
+    if u.sliceCount = 0 then do
+      guardRej (s.fragRemaining != 0) "FragmentedPictureRestarted"
       let s ← pictureNumberCheck s u.picNum
       -- transform_parameters + initialize_fragment_state
       pure { s with initFragOffset := some s.pos, slicesX := some cfg.slicesX, slicesY := some cfg.slicesY,
                     fragReceived := some 0, fragRemaining := cfg.slicesX * cfg.slicesY }
-    else if s.fragRemaining = 0 then
-      -- no fragmented picture in progress: every slice is one too many (uses `.get` fallbacks)
-      rej "TooManySlicesInFragmentedPicture"
-    else
-      match s.lastPicNum with
-      | none => crash "KeyError:_last_picture_number"
-      | some last =>
-        if last ≠ u.picNum then rej "PictureNumberChangedMidFragmentedPicture"
-        else if u.sliceCount > s.fragRemaining then
-          match s.initFragOffset, s.fragReceived with
-          | some _, some _ => rej "TooManySlicesInFragmentedPicture"
-          | _, _ => crash "KeyError:_picture_initial_fragment_offset"
-        else
-          match s.fragReceived, s.slicesX with
-          | some received, some sx =>
-            if sx = 0 then crash "ZeroDivisionError"
-            else if u.fx ≠ received % sx ∨ u.fy ≠ received / sx then rej "FragmentSlicesNotContiguous"
-            else
-              -- fragment_data: `sliceCount` slices
-              let received' := received + u.sliceCount
-              let done := decide (received' = sx * (s.slicesY.getD 0))
-              pure { s with fragReceived := some received', fragRemaining := s.fragRemaining - u.sliceCount,
-                            decoded := if done then s.decoded ++ [u.picNum] else s.decoded }
-          | _, _ => crash "KeyError:fragment_slices_received"
+    else dataFragment s u
   | .aux | .padding => pure s
   | .eos => pure s
 
 /-- the checks of `parse_sequence` once the end-of-sequence parse_info has been read -/
 def endOfSequence (s : VState) : M Unit := do
-  if !s.generic.isComplete then rej "GenericInvalidSequence"
-  match s.level with
-  | some lm => if !lm.isComplete then rej "LevelInvalidSequence"
-  | none => pure ()
-  if s.fragRemaining ≠ 0 then rej "SequenceContainsIncompleteFragmentedPicture"
-  match s.pcm with
-  | none => crash "KeyError:picture_coding_mode"
-  | some pcm => if pcm = 1 ∧ s.numPics % 2 ≠ 0 then rej "OddNumberOfFieldsInSequence"
-  match s.majorVersion with
-  | none => crash "KeyError:major_version"
-  | some mv =>
-    if s.numPics = 0 ∧ mv = 3 then pure ()
-    else if (mv : Int) > s.expectedVersion.getD VC2.Gen.MINIMUM_MAJOR_VERSION then rej "MajorVersionTooHigh"
+  guardRej (!s.generic.isComplete) "GenericInvalidSequence"
+  guardRej (match s.level with | some lm => !lm.isComplete | none => false) "LevelInvalidSequence"
+  guardRej (s.fragRemaining != 0) "SequenceContainsIncompleteFragmentedPicture"
+  let pcm ← getOrCrash s.pcm "KeyError:picture_coding_mode"
+  guardRej (pcm == 1 && s.numPics % 2 != 0) "OddNumberOfFieldsInSequence"
+  let mv ← getOrCrash s.majorVersion "KeyError:major_version"
+  guardRej (!(s.numPics == 0 && mv == 3) &&
+      decide ((mv : Int) > s.expectedVersion.getD VC2.Gen.MINIMUM_MAJOR_VERSION)) "MajorVersionTooHigh"
 
 /-- `parse_stream`: sequences back to back; returns the verdict and the decoded picture numbers -/
 def run (cfg : Config) : VState → List DUnit → Verdict × List Nat
@@ -223,18 +239,18 @@ def run (cfg : Config) : VState → List DUnit → Verdict × List Nat
     if s.lastPI.isNone then (.ok, s.decoded) else (.reject "UnexpectedEndOfStream", s.decoded)
   | s, u :: rest =>
     match parseInfo s u with
-    | .error v => (v, s.decoded)
+    | .error v => (v.toVerdict, s.decoded)
     | .ok s1 =>
       if u.kind = .eos then
         match endOfSequence s1 with
-        | .error v => (v, s1.decoded)
+        | .error v => (v.toVerdict, s1.decoded)
         | .ok () => run cfg (VState.fresh (s.pos + u.len) s1.decoded) rest
       else if (u.kind = .aux ∨ u.kind = .padding) ∧ u.next ≠ u.len then
         -- the payload loop reads next_parse_offset − 13 bytes, not the true payload
         (.desync, s1.decoded)
       else
         match payload cfg s1 u with
-        | .error v => (v, s1.decoded)
+        | .error v => (v.toVerdict, s1.decoded)
         | .ok s2 => run cfg { s2 with pos := s.pos + u.len } rest
 
 def validate (cfg : Config) (us : List DUnit) : Verdict × List Nat := run cfg (VState.fresh 0 []) us
